@@ -36,7 +36,7 @@ def profile(tier, rng):
     return R.Profile(allow=R.HAZARDS, max_depth=8 if tier == "quick" else rng.choice([6, 10, 14]),
                      ops={"extend": 5, "wextend": 2, "owextend": 2, "project": 2, "select_rows": 2, "select_columns": 3,
                           "drop_columns": 3, "rename_columns": 2, "map_columns": 2, "order_rows": 1, "natural_join": 2,
-                          "concat_rows": 1})
+                          "concat_rows": 1, "convert_records": 1})
 
 
 def check_cols(b, backend, got_cols, ops, case, final_select):
